@@ -18,7 +18,9 @@ RULE = ('complete table: every assignment of {absent,@,!,role:r} to the names '
 RULE += (
          ' Plus `redefine`: the default rule redefined in place (update /'
          ' assignment / removal) between two lookups of an unknown name,'
-         ' for 3 ways of naming the default.')
+         ' for 3 ways of naming the default.'
+         ' Every non-empty rule set also with an extra rule via: rule:zz,'
+         ' so the unknown name is reached through a reference as well.')
 ASSUMPTIONS = ['R-store reference model below, written from the property text',
                'policy file route uses YAML files on tmpfs; no policy.d']
 
@@ -186,54 +188,61 @@ def run(job, seed):
         return run_redefine(acc, P, _parser.parse_rule)
     sets = list(itertools.product(BODIES, repeat=len(NAMES)))
     for bodies in sets[job['lo']:job['hi']]:
-        ruleset = {n: b for n, b in zip(NAMES, bodies) if b is not None}
+        base = {n: b for n, b in zip(NAMES, bodies) if b is not None}
         for cfg in CONFIGS:
-            for route in ROUTES:
-                w = world.FileWorld() if route.startswith(('file', 'dir')) \
-                    else None
-                try:
-                    enf = build(P, _parser.parse_rule, ruleset, cfg, route, w)
-                    acc.case('table', bool(ruleset) and len(ruleset) < 3)
-                    for q in QUERIES:
-                        for roles in ((), ('r',)):
-                            exp = ref_decide(ruleset, cfg, q, set(roles))
-                            acc.ev()
-                            got = world.decide(enf, q, {},
-                                               {'roles': list(roles)})
-                            case = {'rules': ruleset, 'config': list(cfg),
-                                    'route': route, 'query': q,
-                                    'roles': list(roles)}
-                            if got != ('ok', exp):
-                                acc.violation(
-                                    '%s|%s|defined=%s|%s' % (
-                                        cfg[0], cfg[1], q in ruleset,
-                                        'allows' if got == ('ok', True)
-                                        else got[1]),
-                                    'enforce(%r) gives %r, reference store '
-                                    'says %r' % (q, got, exp), case, exp, got,
-                                    'table')
-                            acc.ev()
-                            try:
-                                r = enf.enforce(q, {}, {'roles': list(roles)},
-                                                do_raise=True)
-                                got2 = bool(r)
-                            except P.PolicyNotAuthorized:
-                                got2 = False
-                            except Exception as e:
-                                got2 = type(e).__name__
-                            if got2 != exp:
-                                acc.violation(
-                                    'do_raise|%s|%s' % (cfg[0], got2),
-                                    'do_raise variant gives %r, expected %r'
-                                    % (got2, exp), case, exp, got2, 'table')
-                            acc.outcome('%s-%s' % (
-                                'defined' if q in ruleset else 'fallback',
-                                'allow' if exp else 'deny'))
-                finally:
-                    if w:
-                        w.destroy()
-        acc.sample('table', {'rules': ruleset})
+            # via: the unknown name zz is also reached through a defined
+            # rule that refers to it (rule:zz) - same fallback, same decision
+            for via in ((False, True) if base else (False,)):
+                ruleset = dict(base)
+                if via:
+                    ruleset['via'] = 'rule:zz'
+                for route in ROUTES:
+                    _row(acc, P, _parser.parse_rule, ruleset, cfg, route, via)
+        acc.sample('table', {'rules': base})
     return acc.result()
+
+
+def _row(acc, P, parse_rule, ruleset, cfg, route, via):
+    w = world.FileWorld() if route.startswith(('file', 'dir')) else None
+    try:
+        enf = build(P, parse_rule, ruleset, cfg, route, w)
+        acc.case('table', bool(ruleset) and len(ruleset) < 3)
+        for q in QUERIES + (('via',) if via else ()):
+            for roles in ((), ('r',)):
+                exp = ref_decide(ruleset, cfg, 'zz' if q == 'via' else q,
+                                 set(roles))
+                acc.ev()
+                got = world.decide(enf, q, {}, {'roles': list(roles)})
+                case = {'rules': ruleset, 'config': list(cfg),
+                        'route': route, 'query': q, 'roles': list(roles)}
+                if got != ('ok', exp):
+                    acc.violation(
+                        '%s|%s|defined=%s|%s' % (
+                            cfg[0], cfg[1], 'via-reference' if q == 'via'
+                            else q in ruleset,
+                            'allows' if got == ('ok', True) else got[1]),
+                        'enforce(%r) gives %r, reference store says %r' %
+                        (q, got, exp), case, exp, got, 'table')
+                acc.ev()
+                try:
+                    r = enf.enforce(q, {}, {'roles': list(roles)},
+                                    do_raise=True)
+                    got2 = bool(r)
+                except P.PolicyNotAuthorized:
+                    got2 = False
+                except Exception as e:
+                    got2 = type(e).__name__
+                if got2 != exp:
+                    acc.violation(
+                        'do_raise|%s|%s' % (cfg[0], got2),
+                        'do_raise variant gives %r, expected %r' %
+                        (got2, exp), case, exp, got2, 'table')
+                acc.outcome('%s-%s' % (
+                    'defined' if q in ruleset and q != 'via' else 'fallback',
+                    'allow' if exp else 'deny'))
+    finally:
+        if w:
+            w.destroy()
 
 
 def replay(doc):
@@ -245,7 +254,8 @@ def replay(doc):
         enf = build(P, _parser.parse_rule, c['rules'], tuple(c['config']),
                     c['route'], w)
         got = world.decide(enf, c['query'], {}, {'roles': c['roles']})
-        exp = ref_decide(c['rules'], tuple(c['config']), c['query'],
+        exp = ref_decide(c['rules'], tuple(c['config']),
+                         'zz' if c['query'] == 'via' else c['query'],
                          set(c['roles']))
         return None if got == ('ok', exp) else {'observed': got,
                                                 'expected': exp}
